@@ -184,3 +184,18 @@ Lemma fold_left_pres_in {A B} (P : A -> Prop) (g : A -> B -> A) (l : list B) :
 Proof.
   induction l as [|x l IH]; cbn; [auto|]. intros H a Ha. apply IH; auto.
 Qed.
+
+Lemma In_aget_NoDup {K V} (eqb : K -> K -> bool) (eqb_eq : forall a b, eqb a b = true <-> a = b) :
+  forall k (v : V) l, NoDup (map fst l) -> In (k, v) l -> aget eqb k l = Some v.
+Proof.
+  induction l as [|[k2 v2] l IH]; cbn; intros Hnd Hin; [contradiction|].
+  inversion Hnd; subst. destruct Hin as [Heq|Hin].
+  - inversion Heq; subst. rewrite (eqb_refl' eqb eqb_eq). reflexivity.
+  - destruct (eqb k k2) eqn:E.
+    + apply eqb_eq in E. subst. exfalso. apply H1. apply (in_map fst) in Hin. exact Hin.
+    + auto.
+Qed.
+
+Lemma aget_Some_in_keys {K V} (eqb : K -> K -> bool) (eqb_eq : forall a b, eqb a b = true <-> a = b) :
+  forall k (v : V) l, aget eqb k l = Some v -> In k (map fst l).
+Proof. intros k v l H. apply (aget_In eqb eqb_eq) in H. apply (in_map fst) in H. exact H. Qed.
